@@ -46,6 +46,12 @@ def negfn(ev):
     if k == "sphp":
         g["hp"] = ev["hp"] + 1
         return g
+    if k in ("esc", "hext", "dop", "lookup"):
+        g["out"] = ev["out"] + "x"
+        return g
+    if k == "twos":
+        g["out"] = ev["out"] + 1
+        return g
     return None
 
 
@@ -130,8 +136,54 @@ def run(ctx):
         for N in itertools.chain(range(-300, 301), (rng.randrange(-(1 << 30), 1 << 30) for _ in range(20000 if big else 3000))):
             yield ("sphp", {"N": N})
 
+
+    def gen_ext():
+        """helpers beyond the listed properties (judged as notes)"""
+        for n in (1, 2, 7, 8, 12, 16, 24):
+            for val in itertools.chain(range(-40, 41), (-(1 << n), (1 << n) - 1, 1 << n, -(1 << n) - 1, (1 << (n - 1)), -(1 << (n - 1))),
+                                       (rng.randrange(-(1 << 29), 1 << 29) for _ in range(400 if big else 60))):
+                yield ("twos", {"n": n, "val": val})
+        for n in list(range(0, 20)) + [64, 255]:
+            yield ("esc", {"b": rng.randbytes(n).hex()})
+        yield ("esc", {"b": bytes(range(256)).hex()})
+        for n in list(range(0, 40)) + [63, 64, 65, 255, 256, 1000, 2047]:
+            for cols in (1, 2, 3, 8, 16):
+                if n > 300 and cols < 8:
+                    continue
+                yield ("hext", {"raw": (rng.randbytes(n) if n % 3 else bytes((32 + (k * 7) % 95) for k in range(n))).hex(), "cols": cols})
+        yield ("hext", {"raw": bytes(range(256)).hex(), "cols": 8})
+        yield ("hext", {"raw": b"it's \"q\" \\ \t\r\n".hex(), "cols": 4})
+        for h in itertools.chain(range(0, 2300), (5000, 9999, 100000)):
+            yield ("dop", {"h": h})
+        for x in range(-3, 300):
+            yield ("lookup", {"which": "gnss", "x": x})
+            yield ("lookup", {"which": "fix", "x": x})
+        for _ in range(400 if big else 80):
+            ks = ["k%d" % k for k in range(rng.randrange(0, 8))]
+            rng.shuffle(ks)
+            yield ("kfv", {"pairs": [[k, rng.randrange(4)] for k in ks], "v": rng.randrange(5)})
+        words = ["ROM CORE 3.01 (107888)", "EXT CORE 1.00 (61b2dd)", "ROM BASE 2.01", "FWVER=HPG 1.32", "FWVER=SPG 4.04", "PROTVER=27.31", "PROTVER 14.00",
+                 "MOD=ZED-F9P", "MOD=NEO-M8N", "GPS;GLO;GAL;BDS", "SBAS;IMES;QZSS", "SBAS;QZSS", "GPS;NAVIC", "ROM CORE EXT CORE", "FWVER=FWVER=X",
+                 "PROTVER=PROTVER 1", "", "00080000", "000A0000", "MOD=MOD=", "GLONASS", "BDSGAL"]
+        for _ in range(1500 if big else 250):
+            yield ("mon", {"sw": rng.choice(words), "hw": rng.choice(words)[:10], "exts": [rng.choice(words) for _ in range(rng.randrange(0, 10))]})
+        names = [m["name"] for m in ctx.defs["msgids"]]
+        cnames = [c["name"] for c in ctx.defs["classes"]]
+        for nm in names:
+            yield ("msgstr", {"cls": nm.split("-")[0], "id": nm})
+        for c in cnames:
+            yield ("msgstr", {"cls": c, "id": rng.choice(names)})
+            yield ("msgstr", {"cls": c, "id": c + "-NOSUCH"})
+        yield ("msgstr", {"cls": "NOSUCH", "id": names[0]})
+        for c in range(0, 256, 5 if not big else 1):
+            for i in (0, 1, 127, 128, 255, (c * 7) % 256):
+                yield ("msgcls", {"c": c, "i": i})
+        for t in types:
+            yield ("attsiz", {"t": t})
+
     run_batch(ctx, MODULE, CFG, gen_int(), codec.OBSERVERS, sigfn, negfn, chunk=60000)
     run_batch(ctx, MODULE, CFG, gen_misc(), codec.OBSERVERS, sigfn, negfn, chunk=60000)
+    run_batch(ctx, MODULE, CFG, gen_ext(), codec.OBSERVERS, sigfn, negfn, chunk=60000, neg_every=37)
     # protocol(): all 65,536 two-byte prefixes (exhaustive)
     events = []
     common_setup()
